@@ -2,7 +2,7 @@
 import itertools
 from collections import OrderedDict
 
-from t4_geom_convert.Kernel.FileHandlers.Parser.ParseMCNPCell import ParseMCNPCell
+from t4_geom_convert.Kernel.FileHandlers.Parser.ParseMCNPCell import ParseMCNPCell, ParseMCNPCellError
 
 from MIP.mip import cellcard
 
@@ -227,13 +227,217 @@ def _sweep_c15(tier, seed):
                       kw={'retag': ('C01', 'C05', 'C09')}, name='deck-sweep[fill, decks with LIKE cells]')
 
 
+# ------------------------------------------------------------------ parse_keywords: every value, every short sequence
+
+_KW_ITEMS = ('imp:n', 'imp:p', 'u', 'rho', 'mat', 'fill', '*fill', 'lat', 'trcl', '*trcl', '|')
+_KW_IMP = ('imp:n', 'imp:p', '|', 'u')
+
+
+def _kw_sequences(tier):
+    n_all, n_imp = (3, 5) if tier != 'thorough' else (4, 6)
+    seen = set()
+    for alphabet, n in ((_KW_ITEMS, n_all), (_KW_IMP, n_imp)):
+        for k in range(0, n + 1):
+            for seq in itertools.product(alphabet, repeat=k):
+                if seq not in seen:
+                    seen.add(seq)
+                    yield seq
+
+
+@contract(ParseMCNPCell.parse_keywords, props=['C15', 'C12', 'C09', 'C05'], name='ParseMCNPCell.parse_keywords[sequences]')
+class _Keywords:
+    """The option list of a cell card -- after apply_but has appended the BUT options of every LIKE level behind a
+    marker -- read as the property states it: for material, density, universe, fill, lattice and TRCL the LAST
+    occurrence wins (an overriding BUT option comes later); the importance is the maximum over the particle types of
+    the last card level that gives one (a BUT importance replaces, it is never combined with the copied cell's).
+    All importance values are symbolic; the values of the other keywords are opaque tokens; `to_float` and the
+    fill / lattice / TRCL sub-parsers are replaced by their contracts (one value consumed, an opaque result)."""
+    native = False
+
+    def cases(S):
+        import os
+        for seq in _kw_sequences(os.environ.get('VERIF_TIER', 'quick')):
+            yield ','.join(seq) or 'empty', {'seq': seq, 'S_': S}
+
+    raises = {}
+
+    def ensures(result, seq, S_, calls):
+        res, imps = result
+        last = {}
+        for i, item in enumerate(seq):
+            last[item.lstrip('*')] = i
+        yield 'universe:last-occurrence', res.get('u') == ((100 + last['u']) if 'u' in last else None)
+        yield 'density:last-occurrence', res.get('density') == (f'rho{last["rho"]}' if 'rho' in last else None)
+        yield 'material:last-occurrence', res.get('material') == (f'mat{last["mat"]}' if 'mat' in last else None)
+        yield 'lattice:last-occurrence', res.get('lattice') == (('lat', f'lat{last["lat"]}') if 'lat' in last else None)
+        if 'trcl' in last:
+            i = last['trcl']
+            yield 'trcl:last-occurrence', res.get('trcl') == ('trcl', seq[i], f'trcl{i}')
+        else:
+            yield 'trcl:last-occurrence', res.get('trcl') is None
+        if 'fill' in last:
+            i = last['fill']
+            yield 'fill:last-occurrence', (res.get('f_bounds'), res.get('f_univs'), res.get('f_params')) == \
+                (('fb', seq[i], f'fill{i}'), ('fu', seq[i], f'fill{i}'), ('fp', seq[i], f'fill{i}'))
+        else:
+            yield 'fill:last-occurrence', (res.get('f_bounds'), res.get('f_univs'), res.get('f_params')) == (None, None, None)
+        # importance: card levels are separated by the marker; the last level with an importance decides
+        levels = [[]]
+        for i, item in enumerate(seq):
+            if item == '|':
+                levels.append([])
+            elif item.startswith('imp'):
+                levels[-1].append(imps[i])
+        levels = [l for l in levels if l]
+        if not levels:
+            yield 'importance:none-given', res.get('importance') is None
+        else:
+            from contracts.c12 import _max
+            yield 'importance:maximum-over-particle-types-of-the-last-level', res.get('importance') == _max(levels[-1])
+
+
+def _install_kw_hooks():
+    from t4_geom_convert.Kernel.FileHandlers.Parser import ParseMCNPCell as PMC
+    state = {}
+
+    def to_float(it, f, args, kw):
+        return state['values'][args[0]]
+
+    def fill(it, f, args, kw):
+        elt, kw_list = args[-2], args[-1]
+        tok = kw_list.pop()
+        return (('fb', elt, tok), ('fu', elt, tok), ('fp', elt, tok))
+
+    def lat(it, f, args, kw):
+        return ('lat', args[-1].pop())
+
+    def trcl(it, f, args, kw):
+        elt, kw_list = args[-2], args[-1]
+        return ('trcl', elt, kw_list.pop())
+
+    def call(seq, S_):
+        tokens, imps, values = [], {}, {}
+        for i, item in enumerate(seq):
+            tokens.append(item)
+            if item == '|':
+                continue
+            if item.startswith('imp'):
+                imps[i] = S_.real(f'imp{i}')
+                values[f'imp{i}'] = imps[i]
+                tokens.append(f'imp{i}')
+            elif item == 'u':
+                tokens.append(str(100 + i))
+            else:
+                tokens.append(f'{item.lstrip("*")}{i}')
+        state['values'] = values
+        p = _bare_parser()
+        return p.parse_keywords(list(reversed(tokens))), imps
+    _Keywords.hooks = {PMC.to_float: to_float, ParseMCNPCell.parse_fill_kw: fill, ParseMCNPCell.parse_lat_kw: lat,
+                       ParseMCNPCell.parse_trcl_kw: trcl}
+    _Keywords.call = staticmethod(call)
+
+
+_install_kw_hooks()
+
+
+# ------------------------------------------------------------------ parse_one_cell_worker: what becomes of the keywords
+
+@contract(ParseMCNPCell.parse_one_cell_worker, props=['C15', 'C12', 'C09'], name='ParseMCNPCell.parse_one_cell_worker[glue]')
+class _Worker:
+    """The cell object built from a card: an overriding material / density among the keywords (only a LIKE n BUT card
+    has them) replaces the one of the card, the density normalised; importance from the keywords, otherwise from the
+    IMP data cards by the rank of the cell (missing: ParseMCNPCellError); universe 0 unless given; fill, fill
+    transformation, lattice as parsed; at most one TRCL, as a list.  parse_material, get_ast, parse_keywords,
+    to_fillid and normalize_float by hook (their own contracts: c09 / c11 / above)."""
+    native = False
+
+    def cases(S):
+        for given in itertools.product((False, True), repeat=5):
+            for rank in (0, 1, 2):
+                for void in (False, True):
+                    label = ''.join(k for k, g in zip('IUMDT', given) if g) or 'none'
+                    yield f'{label}/rank{rank}{"/void" if void else ""}', {'given': given, 'rank': rank, 'void': void, 'S_': S}
+
+    raises = {ParseMCNPCellError: lambda given, rank, void, S_, calls=None: (not given[0]) and rank >= 2}
+
+    def ensures(result, given, rank, void, S_, calls):
+        cell, imps, imp_kw, kws_seen = result
+        g_imp, g_u, g_mat, g_rho, g_trcl = given
+        yield 'options-tokenised', kws_seen['kw_list'] == ['imp:n', '1', 'u', '2', 'fill', '3', 'x', 'y', '*trcl', '4']
+        yield 'material', cell.materialID == ('MAT_BUT' if g_mat else ('0' if void else 'MAT_CARD'))
+        yield 'density', cell.density == (('norm', 'RHO_BUT') if g_rho else (None if void else 'RHO_CARD'))
+        yield 'geometry', cell.geometry == ('AST', 'GEOMETRY TEXT')
+        yield 'importance', cell.importance == (imp_kw if g_imp else imps[rank])
+        yield 'universe', cell.universe == (7 if g_u else 0)
+        yield 'fill', cell.fillid == ('FILLID', 'LATOPT') and cell.filltr == 'F_PARAMS' and cell.lattice == 'LATTICE'
+        yield 'trcl', cell.trcl == (['TRCL'] if g_trcl else [])
+
+
+def _install_worker_hooks():
+    from collections import defaultdict
+    from t4_geom_convert.Kernel.FileHandlers.Parser import ParseMCNPCell as PMC
+    state = {}
+
+    def parse_material(it, f, args, kw):
+        return ('0', None) if state['void'] else ('MAT_CARD', 'RHO_CARD')
+
+    def get_ast(it, f, args, kw):
+        return ('AST', args[0])
+
+    def parse_keywords(it, f, args, kw):
+        state['seen']['kw_list'] = list(reversed(args[-1]))
+        g_imp, g_u, g_mat, g_rho, g_trcl = state['given']
+        kws = defaultdict(lambda: None)
+        kws.update({'f_bounds': 'F_BOUNDS', 'f_univs': 'F_UNIVS', 'f_params': 'F_PARAMS', 'lattice': 'LATTICE'})
+        if g_imp:
+            kws['importance'] = state['imp_kw']
+        if g_u:
+            kws['u'] = 7
+        if g_mat:
+            kws['material'] = 'MAT_BUT'
+        if g_rho:
+            kws['density'] = 'RHO_BUT'
+        if g_trcl:
+            kws['trcl'] = 'TRCL'
+        return kws
+
+    def to_fillid(it, f, args, kw):
+        return ('FILLID', args[-1])
+
+    def normalize_float(it, f, args, kw):
+        return ('norm', args[0])
+
+    def call(given, rank, void, S_):
+        state.update(given=given, void=void, seen={}, imp_kw=S_.real('imp_kw'))
+        imps = S_.reals(['imp_rank0', 'imp_rank1'])
+        p = _bare_parser(importances=list(imps))
+        cell = p.parse_one_cell_worker(rank, 'LATOPT', ('MATERIAL TEXT', 'GEOMETRY TEXT', 'IMP:N=1 U=2 FILL=3 (X Y) *TRCL=4'))
+        return cell, imps, state['imp_kw'], state['seen']
+    _Worker.hooks = {ParseMCNPCell.parse_material: parse_material, PMC.get_ast: get_ast,
+                     ParseMCNPCell.parse_keywords: parse_keywords, ParseMCNPCell.to_fillid: to_fillid,
+                     PMC.normalize_float: normalize_float}
+    _Worker.call = staticmethod(call)
+
+
+_install_worker_hooks()
+
+
 BOUNDED = {'C15': [_sweep_c15]}
 LEVEL = {'C15': 'other'}
 EXPLANATION = {'C15': (
+    'Proved (sequence length bounded, values unbounded) on the real parse_keywords: for every sequence of up to 3 '
+    'keywords over the full alphabet (imp:n, imp:p, u, rho, mat, fill, *fill, lat, trcl, *trcl, BUT marker) and up to 5 '
+    'over imp / marker / u (4 and 6 in the thorough tier), with symbolic importances and opaque values, the last '
+    'occurrence of a keyword wins and the importance is the maximum over the particle types of the last card level '
+    'that gives one; and on the real parse_one_cell_worker: what the keywords become in the cell object (overriding '
+    'material, normalised density, importance or the IMP data card by rank, universe, fill, TRCL). '
     'Bounded, exhaustive within the stated scope, on the real parse_one_cell / apply_but / parse_keywords: the cell '
     'object parsed from a LIKE n BUT card (direct and chained) equals, field by field, the cell object parsed from the '
     'explicit card with the listed parameters overridden. The card splitter (cellcard.split, regular expressions) is '
     'under a bounded contract of its own (option text handed over verbatim); it is also exercised by the deck sweep of this property (family fill: universes '
     're-used through LIKE copies of all their cells with U=, FILL=, MAT=, RHO= overridden; owner, provenance and '
     'composition of every probe point against the deck oracle).')}
-ASSUMPTIONS = {'C15': ['cellcard.split: bounded contract only (regular expressions are outside the proved subset)']}
+ASSUMPTIONS = {'C15': ['cellcard.split: bounded contract only (regular expressions are outside the proved subset)',
+                       'parse_keywords / parse_one_cell_worker: to_float, parse_fill_kw, parse_lat_kw, parse_trcl_kw, '
+                       'parse_material, get_ast, to_fillid, normalize_float replaced by hooks (own contracts, bounded)',
+                       'the apply_but concatenation and the LIKE_RE loop of parse_one_cell are string operations: bounded only']}
